@@ -166,7 +166,8 @@ def schedule(params, bam_dt, serialize_pairs=True):
                     # (short) earlier transfer on this pair until the call is accepted - at the latest when the model's upper
                     # bound says the pair is free
                     m["_retry_until"] = free[key] + 0.1
-                    t = max(t, prev[key][0] + 0.005)
+                    # (not before the earlier call has certainly been made: a timer-context call is late by eps + dispatch)
+                    t = max(t, prev[key][0] + max(params["eps"]) + max(params["disp"]) + 0.0001)
                     free[key] = free[key] + duration_bound(params, m, bam_dt) + 0.3
                     prev[key] = (free[key], 10 ** 6)
                     out.append(t)
